@@ -222,6 +222,11 @@ def addr(n):
 
 # ---------------------------------------------------------------------------
 WORKBOOKS = {
+    # C12: large values, where a relative closeness test is much looser than a tolerance
+    'big': dict(
+        inputs={'A1': 3000000, 'A2': 2},
+        formulas={'B1': ('Plus', ['A1', 'A2'], 1), 'C1': ('Plus', ['B1'], 10),
+                  'D1': ('Cat', 'C1')}),
     # C09: C1 captures a #VALUE! (text + number) before it reads B1
     'capture': dict(
         inputs={'A1': 'a', 'A2': 1},
